@@ -23,7 +23,7 @@ RULE = ("each case compiles one generated model for one configuration (backend i
         "distinct = distinct (spec, configuration) hash")
 DECIDING = ['derivatives_compared', 'torch_cases', 'jax_cases', 'fortran_cases', 'default_cases', 'float32_cases', 'rows_compared',
             'adaptive_rows_compared', 'interp_probe_points', 'readonly_param_probes', 'jax_checkify_probes', 'fortran_builds_checked',
-            'runs_with_coarser_sampling', 'literal_magnitude_models', 'oscillator_runs', 'rational_number_values']
+            'runs_with_coarser_sampling', 'literal_magnitude_models', 'oscillator_runs', 'rational_number_values', 'durations_with_quotient_just_below_integer']
 ASSUMPTIONS = ['float32 builds are compared at rtol 5e-4 on well-conditioned probe points only',
                'feature set per backend is what the backend accepts (Fortran: scalar models; JAX: no ring buffers); refusals are C20\'s business']
 CASE_TIMEOUT = 420
@@ -46,6 +46,10 @@ def plan(tier, seed):
     for b in n:
         cases += [{'family': 'sampling', 'cseed': rnd.randrange(1 << 30), 'backend': b, 'mode': 'run_fixed', 'prec': 'float64',
                    'force_sampling': True} for _ in range(8 if tier == 'quick' else 120)]
+    # durations whose quotient T/dt lies just below the integer step count, on every backend (each has its own step count)
+    for b in n:
+        cases += [{'family': 'sampling', 'cseed': rnd.randrange(1 << 30), 'backend': b, 'mode': 'run_fixed', 'prec': 'float64',
+                   'force_below': True} for _ in range(4 if tier == 'quick' else 40)]
     # literal magnitudes: very small / very large numeric literals in equations (printing and precision of literals differs
     # per backend; Fortran needs double precision literals)
     for b, kk in (('fortran', 20), ('default', 3), ('torch', 3), ('jax', 3)):
@@ -279,6 +283,13 @@ def run_case(case, ctx):
             # sampling step = m * integration step: every backend has its own storage loop
             m_samp = rnd.choice([1, 1, 2, 3, 5]) if not case.get('force_sampling') else rnd.choice([2, 3, 5])
             steps = m_samp * rnd.randint(3, 7) if m_samp > 1 else 14
+            # durations whose float quotient T/dt lies just BELOW the integer step count (0.029/0.001 = 28.999999999999996)
+            below = [s_ for s_ in range(8, 180) if int(round(s_ * dt, 9) / dt) != s_ and s_ % m_samp == 0]
+            T_run = steps * dt
+            if below and (rnd.random() < 0.5 or case.get('force_below')):
+                steps = rnd.choice(below)
+                T_run = round(steps * dt, 9)        # the decimal literal a user writes (0.043)
+                mech['durations_with_quotient_just_below_integer'] = 1
             inputs, input_fn = None, None
             in_keys = [k for k in ref.param_keys if ref.kind[k] == 'in']
             if use_input and in_keys:
@@ -287,7 +298,7 @@ def run_case(case, ctx):
                 inputs = {'/'.join(ik): arr}
                 input_fn = lambda k, ik=ik, arr=arr: {ik: float(arr[min(k, steps - 1)])}
             try:
-                df = observe.run_model(spec, T=steps * dt, dt=dt, solver=solver, outputs=outputs, backend=b, vectorize=vec, inputs=inputs,
+                df = observe.run_model(spec, T=T_run, dt=dt, solver=solver, outputs=outputs, backend=b, vectorize=vec, inputs=inputs,
                                        dts=m_samp * dt, **kw)
             except Exception as e:
                 import traceback
@@ -298,7 +309,11 @@ def run_case(case, ctx):
             msgs = []
             # (both Heun stages of integration step k use input sample k, on every backend)
             for st2 in ['same']:
-                exp = observe.ref_trajectory(ref, keys, steps, dt, heun=(solver == 'heun'), input_fn=input_fn, stage2=st2)[::m_samp]
+                try:
+                    exp = observe.ref_trajectory(ref, keys, steps, dt, heun=(solver == 'heun'), input_fn=input_fn, stage2=st2)[::m_samp]
+                except OverflowError:
+                    res.update(status='discard', symptom='reference not finite', mech=mech)
+                    return res
                 msgs.append(observe.compare_traj(df.values, exp, rtol=1e-7))
             if 'discard' in msgs:
                 res.update(status='discard', symptom='reference not finite', mech=mech)
